@@ -742,10 +742,12 @@ pub fn random_addr(rng: &mut Rng, fam: u64) -> v2::Addresses {
             // the two paths drawn independently: unnamed (all zero), full, a short name
             let mut path = |rng: &mut Rng| -> [u8; 108] {
                 let mut p = [0u8; 108];
-                match rng.below(3) {
+                match rng.below(4) {
                     0 => {}
                     1 => { for b in p.iter_mut() { *b = 0x61 + rng.below(20) as u8; } }
-                    _ => { let name = b"/var/run/app.sock"; p[..name.len()].copy_from_slice(name); }
+                    2 => { let name = b"/var/run/app.sock"; p[..name.len()].copy_from_slice(name); }
+                    // sparse: a name, a long run of zeros, more bytes, zeros, a last byte
+                    _ => { p[..6].copy_from_slice(b"/run/a"); p[40] = b'#'; p[41] = b'1'; p[107] = 0x7e; }
                 }
                 p
             };
